@@ -6,7 +6,9 @@ proof:  lean/AdeptProofs/Props/C07.lean (invariant of the storage life-cycle mod
         is the identity, temporaries / by-value parameters net out to nothing)
 tie:    hand-written model AdeptModel/Storage.lean  <->  Storage.h add_link/remove_link, the constructors, destructor,
         link, clear, resize, copy and move assignment, swap, soft_link and every view-returning member function of
-        Array<1>, Array<2>, active Array<1> and SpecialMatrix (symmetric, tridiagonal), slices of FixedArray.
+        Array<1> (int, active, passive double), Array<2> and SpecialMatrix (symmetric, tridiagonal, diagonal; passive and active),
+        including the CROSS-CLASS views Array::diag_matrix(), inactive_link()/value(), diag_vector of special matrices,
+        FixedArray slices and FixedArray::diag_matrix().
         harness/drv_storage.cpp interprets the same histories with REAL objects and real moves
         (std::move, noinline functions taking and returning arrays by value, slices and external-memory arrays as
         rvalues, std::vector growth, std::swap) and with ALLOCATION FAULTS (the data allocations of internal::alloc_aligned
@@ -37,10 +39,16 @@ MODEL_FILE = ("AdeptModel/Storage.lean <-> Storage.h / Array.h / SpecialMatrix.h
               "resize, =, move =, swap)")
 SRC = os.path.join(vbuild.VERIF, "harness", "drv_storage.cpp")
 
-VIEW_FNS = {"sl": 3, "row": 4, "col": 4, "sub": 6, "idx": 1, "tr": 0, "diag": 1, "sod": 2, "rsh": 2, "perm": 2}
+VIEW_FNS = {"sl": 3, "row": 4, "col": 4, "sub": 6, "idx": 1, "tr": 0, "diag": 1, "sod": 2, "rsh": 2, "perm": 2, "dm": 0, "il": 0}
+# kinds: v intVector, m intMatrix, a aVector, s / t passive symmetric / tridiagonal SpecialMatrix<int>, g DiagMatrix<int>
+# (intVector::diag_matrix()), G active DiagMatrix (aVector::diag_matrix()), S active symmetric matrix, p Array<1,double,false>
+# (value() of an aVector)
+ALLK = "vmastgGSp"
+VEC, ARR, SPEC, ACT, SYMM = "vap", "vmap", "stgGS", "aGS", "sS"
+BAND = {"t": 1, "g": 0, "G": 0}
 FORMS = ("", "link", "ac", "am", "fn", "fnv", "amfn", "amfnv")
-KIND_SFX = {"": "v", "m": "m", "a": "a", "s": "s", "t": "t"}
-SFX_OF = {"v": "", "m": "m", "a": "a", "s": "s", "t": "t"}
+KIND_SFX = {"": "v", "m": "m", "a": "a", "s": "s", "t": "t", "g": "g", "G": "G", "S": "S", "p": "p"}
+SFX_OF = {v: k for k, v in KIND_SFX.items()}
 PLAIN_ASSIGN = ("ac", "am", "amfn", "amdup")
 OTHER_ASSIGN = ("amext", "amextfn", "amfix", "amfresh", "amsum")
 
@@ -76,7 +84,7 @@ def is_assign(c):
 
 def is_create(c):
     cl = classify(c)
-    return (cl[0] in ("new", "newd", "newfn", "newm") or c in ("ext", "extfn", "fsl", "cp", "cpc", "cpm", "soft", "sum", "vpush")
+    return (cl[0] in ("new", "newd", "newfn", "newm") or c in ("ext", "extfn", "fsl", "fdiag", "cp", "cpc", "cpm", "soft", "sum", "vpush")
             or (cl[0] == "view" and cl[1] in ("", "fn", "fnv")))
 
 
@@ -87,39 +95,42 @@ def tdiv(a, b):
 
 
 def rel_cells(kind, d0, d1, s0, s1):
-    if kind in "va":
+    if kind in VEC:
         return [k * s0 for k in range(d0)]
     if kind == "m":
         return [i * s0 + j * s1 for i in range(d0) for j in range(d1)]
-    if kind == "s":
+    if kind in SYMM:
         return [i * s0 + j for i in range(d0) for j in range(i + 1)]
-    return [i * s0 + j for i in range(d0) for j in range(d0) if abs(i - j) <= 1]
+    w = BAND[kind]
+    return [i * s0 + j for i in range(d0) for j in range(d0) if abs(i - j) <= w]
 
 
 def extent(kind, d0, d1, s0, s1):
-    if kind in "va":
+    if kind in VEC:
         return 0 if d0 == 0 else (d0 - 1) * s0 + 1
     if kind == "m":
         return 0 if d0 == 0 or d1 == 0 else (d0 - 1) * s0 + (d1 - 1) * s1 + 1
-    if kind == "s":
+    if kind in SYMM:
         return 0 if d0 == 0 else (d0 - 1) * s0 + d0
     return 0 if d0 == 0 else (d0 - 1) * (s0 + 1) + 1
 
 
 def packed(kind, n0, n1):
     """(d0, d1, s0, s1, volume) of a freshly resized object"""
-    if kind in "va":
+    if kind in VEC:
         return n0, 0, 1, 0, n0
     if kind == "m":
         return n0, n1, n1, 1, n0 * n1
-    if kind == "s":
+    if kind in SYMM:
         return n0, 0, n0, 0, n0 * n0
-    return n0, 0, 2, 0, (n0 - 1) * 3 + 1
+    if kind == "t":
+        return n0, 0, 2, 0, (n0 - 1) * 3 + 1
+    return n0, 0, 0, 0, n0
 
 
 def resize_outcome(kind, strict, n0, n1):
     """'exc' | 'clear' | (n0, n1): what resize must do (documented behaviour, walked as the C++ does)"""
-    if kind in "va":
+    if kind in VEC:
         return "exc" if n0 < 0 else "clear" if n0 == 0 else (n0, 0)
     if kind == "m":
         if strict and (n0 < 0 or n1 < 0):
@@ -162,19 +173,23 @@ def expected_view(b, fn, a):
     elif fn == "idx":
         v = ("ok", "v", a[0] * b.s0, b.d1, 0, b.s1, 0)
     elif fn == "tr":
-        v = ("ok", "m", 0, b.d1, b.d0, b.s1, b.s0)
+        v = ("ok", "m", 0, b.d1, b.d0, b.s1, b.s0) if k == "m" else ("ok", k, 0, b.d0, 0, b.s0, 0)
+    elif fn == "dm":               # a DiagMatrix on the vector's data: SAME Storage, offset_ = offset_[0] - 1
+        v = ("ok", "G" if k == "a" else "g", 0, b.d0, 0, b.s0 - 1, 0)
+    elif fn == "il":               # inactive_link() / value(): a passive object on the same data
+        v = ("ok", "p" if k == "a" else k, 0, b.d0, b.d1, b.s0, b.s1)
     elif fn == "diag":
         kk = a[0]
         if k == "m":
             if b.d0 != b.d1:
                 return ("exc", "invalid_operation")
             v = ("ok", "v", (b.s1 * kk if kk >= 0 else b.s0 * -kk), b.d0 - abs(kk), 0, b.s0 + b.s1, 0)
-        elif k == "s":
-            v = ("ok", "v", abs(kk) * b.s0, b.d0 - abs(kk), 0, b.s0 + 1, 0)
+        elif k in SYMM:
+            v = ("ok", "a" if k in ACT else "v", abs(kk) * b.s0, b.d0 - abs(kk), 0, b.s0 + 1, 0)
         else:
-            if abs(kk) > 1:
+            if abs(kk) > BAND[k]:
                 return ("exc", "index_out_of_bounds")
-            v = ("ok", "v", (kk if kk >= 0 else -kk * b.s0), b.d0 - abs(kk), 0, b.s0 + 1, 0)
+            v = ("ok", "a" if k in ACT else "v", (kk if kk >= 0 else -kk * b.s0), b.d0 - abs(kk), 0, b.s0 + 1, 0)
     elif fn == "sod":
         i0, i1 = a
         if k == "m" and b.d0 != b.d1:
@@ -195,9 +210,9 @@ def expected_view(b, fn, a):
         v = ("ok", "m", 0, b.d0, b.d1, b.s0, b.s1) if i0 == 0 else ("ok", "m", 0, b.d1, b.d0, b.s1, b.s0)
     else:
         return None
-    if v[1] in "vam" and (v[3] < 0 or v[4] < 0):
+    if v[1] in ARR and (v[3] < 0 or v[4] < 0):
         return ("exc", "invalid_dimension")      # an Array never has a negative extent
-    if v[1] == "a" and b.st == "-":
+    if v[1] in ACT and b.st == "-":
         return ("exc", "invalid_operation")      # an active view of data without a Storage has no gradient index
     return v
 
@@ -311,13 +326,13 @@ def must_throw(c, cl, a, prev):
         return None if cl[1] in ("", "fn", "fnv", "link") else "?"
     if cl[0] in ("new", "newfn"):
         n0, n1 = dims1(cl[1], a[1])
-        return "invalid_dimension" if resize_outcome(cl[1], cl[1] in "st", n0, n1) == "exc" else None
+        return "invalid_dimension" if resize_outcome(cl[1], cl[1] in SPEC, n0, n1) == "exc" else None
     if c == "newm":
         return "invalid_dimension" if resize_outcome("m", False, a[1], a[2]) == "exc" else None
     if c in ("rs", "rsi", "rs2", "rsi2") and a[0] in prev:
         k = prev[a[0]].kind
         if c in ("rs", "rsi"):
-            n0, n1 = (a[1], a[1]) if k in "st" else (a[1], 0)
+            n0, n1 = (a[1], a[1]) if k in SPEC else (a[1], 0)
             strict = c == "rsi"
         else:
             n0, n1 = a[1], a[2]
@@ -329,7 +344,7 @@ def must_throw(c, cl, a, prev):
         return "empty_array" if prev[a[1]].alloc is None else None
     if c == "sum" and a[1] in prev and a[2] in prev:
         return "size_mismatch" if prev[a[1]].d0 != prev[a[2]].d0 else None
-    if c in ("cp", "cpc", "cpm", "soft", "clr", "del", "w", "fnw", "swp", "vpush", "vpop", "fsl", "xw", "xend", "xnew", "fnew", "end",
+    if c in ("cp", "cpc", "cpm", "soft", "clr", "del", "w", "fnw", "swp", "vpush", "vpop", "fsl", "fdiag", "xw", "xend", "xnew", "fnew", "end",
              "failnext") \
             or cl[0] == "newd":
         return None
@@ -341,6 +356,7 @@ def oracle(hist, lines):
     prev_objs, prev_exts, prev_n, prev_g, prev_f = {}, {}, 0, 0, 0
     seen_labels = set()
     soft = set()          # handles that are deliberately uncounted views (soft links and what was made from them)
+    active_labels = set() # storages that have been seen held by an active object
     for i, (op, line) in enumerate(zip(hist, lines)):
         w = op.split()
         c = w[0]
@@ -439,12 +455,15 @@ def oracle(hist, lines):
                 if o.off + extent(o.kind, o.d0, o.d1, o.s0, o.s1) > o.sz:
                     return i, "array %d addresses elements [%d,%d) of storage %s, which has %d" % (
                         k, o.off, o.off + extent(o.kind, o.d0, o.d1, o.s0, o.s1), o.st, o.sz)
-                if o.kind == "a":
-                    act[o.st] = o.sz
+                if o.kind in ACT:
+                    active_labels.add(o.st)
                     if o.gi != o.off:
                         return i, "active array %d: gradient index is %s elements from its storage's, data() is %d" % (k, o.gi, o.off)
         if n != len(cnt):
             return i, "n_storage_objects()=%d but %d storages are referred to by live arrays (leak or double release)" % (n, len(cnt))
+        for k, o in objs.items():
+            if o.st in active_labels:      # a Storage created active keeps its gradients while ANY object (also a passive
+                act[o.st] = o.sz           # value() of it) refers to it
         if g != sum(act.values()):
             return i, ("n_gradients_registered()=%d but the active storages referred to by live arrays hold %d elements "
                        "(gradients not released with the data, or released twice)" % (g, sum(act.values())))
@@ -542,14 +561,14 @@ def op_rule(c, cl, a, objs, prev, exts, prev_exts, seen_labels, soft):
 
     if cl[0] in ("new", "newfn"):
         n0, n1 = dims1(cl[1], a[1])
-        return fresh_owner(objs[a[0]], cl[1], resize_outcome(cl[1], cl[1] in "st", n0, n1), "new array")
+        return fresh_owner(objs[a[0]], cl[1], resize_outcome(cl[1], cl[1] in SPEC, n0, n1), "new array")
     if c == "newm":
         return fresh_owner(objs[a[0]], "m", resize_outcome("m", False, a[1], a[2]), "new matrix")
     if c in ("rs", "rsi", "rs2", "rsi2"):
         soft.discard(a[0])
         k = prev[a[0]].kind
         if c in ("rs", "rsi"):
-            n0, n1 = (a[1], a[1]) if k in "st" else (a[1], 0)
+            n0, n1 = (a[1], a[1]) if k in SPEC else (a[1], 0)
             strict = c == "rsi"
         else:
             n0, n1 = a[1], a[2]
@@ -560,6 +579,12 @@ def op_rule(c, cl, a, objs, prev, exts, prev_exts, seen_labels, soft):
         soft.discard(a[0])
         if not is_blank(o):
             return "%s must give an empty array with no data and no storage" % c
+        return None
+    if c == "fdiag":
+        o = objs[a[0]]
+        if o.st != "-" or o.at != "X%d+0" % a[1] or (o.kind, o.d0, o.s0) != ("g", 4, 0):
+            return "FixedArray::diag_matrix() must be a DiagMatrix over the FixedArray's memory holding no storage (got %s st=%s at=%s)" % (
+                o.kind, o.st, o.at)
         return None
     if c in ("ext", "extfn", "fsl"):
         o = objs[a[0]]
@@ -640,7 +665,7 @@ def op_rule(c, cl, a, objs, prev, exts, prev_exts, seen_labels, soft):
 
 def assign_rule(c, cl, a, objs, prev, prev_exts, seen_labels, soft):
     o, o0 = objs[a[0]], prev[a[0]]
-    is_am = c == "am" and o0.kind in "vma"               # SpecialMatrix has no move assignment
+    is_am = c == "am" and o0.kind in ARR               # SpecialMatrix has no move assignment
     if is_am and a[0] != a[1] and objs[a[1]].struct() not in (prev[a[1]].struct(), o0.struct()):
         return "move assignment left its source neither untouched nor with the target's old data"
     if is_am and a[0] != a[1] and a[0] in soft and objs[a[1]].struct() == o0.struct() != prev[a[1]].struct():
@@ -672,13 +697,13 @@ def assign_rule(c, cl, a, objs, prev, prev_exts, seen_labels, soft):
         sdims = (b.d0, 0)
     else:                                             # amfresh
         n0, n1 = dims1(o0.kind, a[1])
-        if resize_outcome(o0.kind, o0.kind in "st", n0, n1) == "clear":
+        if resize_outcome(o0.kind, o0.kind in SPEC, n0, n1) == "clear":
             src, sdims = [], (0, 0)
         else:
             pk = packed(o0.kind, n0, n1)
             src = [a[2] + j for j in range(len(rel_cells(o0.kind, pk[0], pk[1], pk[2], pk[3])))]
             sdims = (n0, n1 if o0.kind == "m" else 0)
-    if o0.kind in "st":
+    if o0.kind in SPEC:
         sdims = (sdims[0], 0)
     # extents: an empty target takes the source's, a non-empty one must match (else the statement must have thrown)
     if not o0.empty() and (o0.d0, o0.d1) != sdims:
@@ -713,12 +738,12 @@ class Gen:
     well-formed; a fraction of the requests is deliberately INVALID (reversed ranges, diagonals beyond the matrix,
     wrong reshape, bad sub-matrix bounds, negative extents, link to empty, mismatching sizes) and must be rejected"""
 
-    def __init__(self, rng, length, kinds="vmast"):
+    def __init__(self, rng, length, kinds=ALLK):
         self.r, self.length = rng, length
         self.ops = []
         self.kind = {}     # handle -> kind
         self.dim = {}      # handle -> (d0, d1) or None (unknown)
-        self.bag = {k: [] for k in "vmast"}
+        self.bag = {k: [] for k in ALLK}
         self.ext = {}      # block -> [size, live, fixed]
         self.nk = 0
         self.nx = 0
@@ -732,7 +757,7 @@ class Gen:
         return self.nk
 
     def newkind(self):
-        return self.r.choice([k for k in "vvvvmmaasstt" if k in self.kinds])
+        return self.r.choice([k for k in "vvvvvmmmaaassttgGSSp" if k in self.kinds])
 
     def d0(self, k):
         d = self.dim.get(k)
@@ -751,7 +776,8 @@ class Gen:
         if not d:
             return 0
         kd = self.kind[k]
-        return {"v": d[0], "a": d[0], "m": d[0] * d[1], "s": d[0] * (d[0] + 1) // 2, "t": max(0, 3 * d[0] - 2)}[kd]
+        return {"v": d[0], "a": d[0], "p": d[0], "m": d[0] * d[1], "s": d[0] * (d[0] + 1) // 2, "S": d[0] * (d[0] + 1) // 2,
+                "t": max(0, 3 * d[0] - 2), "g": d[0], "G": d[0]}[kd]
 
     def rrange(self, n, bad=False):
         r = self.r
@@ -773,7 +799,11 @@ class Gen:
         r = self.r
         kd, (n0, n1) = self.kind[b], self.dim[b]
         bad = r.random() < self.pbad
-        if kd in "va":
+        if kd in VEC and kd != "p" and r.random() < 0.15:
+            return "dm", [], ("G" if kd == "a" else "g"), (n0, 0)            # DiagMatrix view of the vector
+        if kd in "vmapstg" and r.random() < 0.1:
+            return "il", [], ("p" if kd == "a" else kd), (n0, n1)             # inactive_link() / value()
+        if kd in VEC:
             if kd == "v" and r.random() < 0.2:
                 divs = [d for d in range(1, n0 + 1) if n0 % d == 0]
                 d0 = r.choice(divs); d1 = n0 // d0
@@ -809,16 +839,18 @@ class Gen:
             if bad:
                 i0, i1 = r.choice([(i1 + 1, i0), (-1, i1), (i0, n0), (i0, n0 + 2)])
             return "sod", [i0, i1], "m", (i1 - i0 + 1,) * 2
-        # symmetric / tridiagonal
+        # special matrices (symmetric, tridiagonal, diagonal; passive and active)
+        if kd in SYMM and r.random() < 0.2:
+            return "tr", [], kd, (n0, 0)
         if r.random() < 0.5:
-            k = r.randrange(-(n0 - 1), n0) if kd == "s" else r.choice([-1, 0, 0, 1])
+            k = r.randrange(-(n0 - 1), n0) if kd in SYMM else r.choice([-1, 0, 0, 1]) if kd == "t" else 0
             if kd == "t" and n0 == 1:
                 k = 0
             if bad:
-                k = r.choice([n0 + 1, -(n0 + 1), 2, -2, n0 + 2])
+                k = r.choice([n0 + 1, -(n0 + 1), 2, -2, n0 + 2, 1, -1])
                 if abs(k) == n0:
                     k = n0 + 1
-            return "diag", [k], "v", (max(0, n0 - abs(k)), 0)
+            return "diag", [k], ("a" if kd in ACT else "v"), (max(0, n0 - abs(k)), 0)
         i0 = r.randrange(n0); i1 = r.randrange(i0, n0)
         if bad:
             i0, i1 = r.choice([(i1 + 1, i0), (-1, i1), (i0, n0), (i0, n0 + 2)])
@@ -852,7 +884,7 @@ class Gen:
 
     def size_for(self, kd, small=False):
         r = self.r
-        if kd in "va":
+        if kd in VEC:
             return (r.choice([0, 0, 1, 2, 3, 3, 4, 5, 6]), 0)
         if kd == "m":
             return (r.choice([1, 2, 2, 3, 3, 4]), r.choice([1, 2, 3, 3, 4]))
@@ -910,7 +942,9 @@ class Gen:
             if xb is None:
                 return
             k = self.fresh(); size, _, fixed = self.ext[xb]
-            if fixed:
+            if fixed and r.random() < 0.2:
+                self.emit("fdiag %d %d" % (k, xb)); self.setobj(k, "g", (4, 0))
+            elif fixed:
                 lo = r.randrange(4); hi = r.randrange(lo, 4)
                 self.emit("fsl %d %d %d %d" % (k, xb, lo, hi)); self.setobj(k, "v", (hi - lo + 1, 0))
             else:
@@ -922,7 +956,7 @@ class Gen:
         elif x < 0.22:        # shallow copies, also into a std::vector
             b = self.pick()
             k = self.fresh()
-            if K[b] in "va" and r.random() < 0.2:
+            if K[b] in "va" and r.random() < 0.2:     # (sum_of is instantiated for v and a only)
                 cands = [k2 for k2 in K if K[k2] == K[b] and (D[k2] == D[b] or r.random() < 0.15)]
                 self.emit("sum %d %d %d" % (k, b, r.choice(cands)))
             elif r.random() < 0.25:
@@ -962,8 +996,8 @@ class Gen:
             kd = K[a]
             if r.random() < 0.4:
                 self.emit("clr %d" % a); D[a] = (0, 0)
-            elif kd in "va" or (kd in "st" and r.random() < 0.6):
-                n = r.choice([-2, -1, 0, 1, 2, 3, 4, 6] if kd in "va" else [-1, 0, 1, 2, 3, 4])
+            elif kd in VEC or (kd in SPEC and r.random() < 0.6):
+                n = r.choice([-2, -1, 0, 1, 2, 3, 4, 6] if kd in VEC else [-1, 0, 1, 2, 3, 4])
                 self.emit("%s %d %d %d" % (r.choice(["rs", "rs", "rsi"]), a, n, self.val()))
                 if n >= 0:
                     D[a] = (n, 0)
@@ -982,7 +1016,7 @@ class Gen:
                 self.emit("fnrs %d %d" % (b, r.choice([-1, 0, 1, 3, 5])))
         elif x < 0.83:        # swap
             a = self.pick(); b = self.pick(kind=K[a])
-            op = r.choice(["swp", "stdswp"]) if K[a] in "vma" else "stdswp"
+            op = r.choice(["swp", "stdswp"]) if K[a] in ARR else "stdswp"
             self.emit("%s %d %d" % (op, a, b))
             if op == "swp":
                 D[a], D[b] = D[b], D[a]
@@ -995,7 +1029,7 @@ class Gen:
             self.emit("w %d %d %d" % (a, r.randrange(self.ncells(a)), self.val()))
         else:                 # destruction: parents before views as often as not
             a = self.pick()
-            inbag = [k for k in "vmast" if a in self.bag[k]]
+            inbag = [k for k in ALLK if a in self.bag[k]]
             if inbag:
                 a = self.bag[inbag[0]].pop()
                 self.emit("vpop %d" % a)
@@ -1012,7 +1046,9 @@ class Gen:
         if kd == "v":
             forms += ["amext", "amext", "amfix", "amfix", "amextfn"]
         if kd in "va":
-            forms += ["amsum", "amfnsl"]
+            forms += ["amsum"]
+        if kd in VEC:
+            forms += ["amfnsl"]
         form = r.choice(forms)
         src = None
         want = D[a] if self.nonempty(a) and r.random() < 0.8 else None   # extents that will be accepted
@@ -1023,7 +1059,7 @@ class Gen:
             self.emit("%s %d %d" % (form, a, b)); src = ("obj", b)
             if empty_target:
                 D[a] = D[b]
-                if form == "am" and a != b and kd in "vma":
+                if form == "am" and a != b and kd in ARR:
                     D[b] = None
         elif form in ("acview", "amview", "amfnsl"):
             cands = [b for b in K if self.nonempty(b)]
@@ -1089,7 +1125,7 @@ class Gen:
 
 def random_history(rng, maxlen):
     length = rng.choice([maxlen // 4, maxlen // 2, maxlen, maxlen])
-    kinds = rng.choice(["vmast", "vmast", "vmast", "v", "va", "vm", "mst", "st", "a"])
+    kinds = rng.choice([ALLK, ALLK, ALLK, "vmast", "v", "va", "vm", "mst", "st", "a", "vgap", "aGSp", "sSg"])
     return Gen(rng, max(4, length), kinds).run()
 
 
@@ -1178,18 +1214,35 @@ def subjects(kd):
             "transposed": ["newm 10 3 3 1", "tr 1 10"], "reshaped": ["new 10 9 1", "rsh 1 10 3 3"],
             "soft": ["newm 10 3 3 1", "soft 1 10"],
         }
+    if kd == "p":
+        return {
+            "owner": ["newp 1 6 1"], "owner_shared": ["newp 1 6 1", "cp 10 1"],
+            "value_of_active": ["newa 10 6 1", "il 1 10"], "value_of_active_gone": ["newa 10 6 1", "il 1 10", "del 10"],
+            "view": ["newp 10 8 1", "sl 1 10 1 6 1"], "soft": ["newp 10 6 1", "soft 1 10"],
+        }
     sfx = kd
-    return {
+    out = {
         "owner": ["new%s 1 3 1" % sfx], "owner_shared": ["new%s 1 3 1" % sfx, "cp 10 1"],
         "view": ["new%s 10 5 1" % sfx, "sod 1 10 1 3"], "view_parent_gone": ["new%s 10 5 1" % sfx, "sod 1 10 2 4", "del 10"],
         "soft": ["new%s 10 3 1" % sfx, "soft 1 10"],
     }
+    if kd in "gG":
+        vec = "new" if kd == "g" else "newa"
+        out["diag_matrix_of_vector"] = ["%s 10 3 1" % vec, "dm 1 10"]
+        out["diag_matrix_vector_gone"] = ["%s 10 3 1" % vec, "dm 1 10", "del 10"]
+        out["diag_matrix_of_strided_view"] = ["%s 11 7 1" % vec, "sl 10 11 1 5 2", "dm 1 10", "del 11"]
+    if kd == "g":
+        out["diag_matrix_of_fixed_array"] = ["fnew 9 1", "fdiag 1 9"]
+    if kd == "s":
+        out["inactive_link"] = ["news 10 3 1", "il 1 10"]
+        out["inactive_link_source_gone"] = ["news 10 3 1", "il 1 10", "del 10"]
+    return out
 
 
 # requests that MUST be rejected (3 = a non-empty target of the result's kind where one is needed, 5 = an empty array)
 def rejects(kd):
-    if kd in "va":
-        new = "new" if kd == "v" else "newa"
+    if kd in VEC:
+        new = "new" + SFX_OF[kd]
         out = [["sl 2 1 4 1 1"], ["sl 2 1 5 0 1"], ["sl 2 1 5 1 2"], ["fnsl 2 1 4 1 1"], ["fnvsl 2 1 5 2 1"],
                ["%s 3 2 0" % new, "linksl 3 1 4 1 1"], ["%s 3 2 0" % new, "amsl 3 1 4 1 1"], ["%s 3 2 0" % new, "acsl 3 1 5 1 1"],
                ["newd%s 3" % kd.replace("v", ""), "amsl 3 1 4 2 1"], ["%s 3 2 0" % new, "amfnvsl 3 1 4 1 1"],
@@ -1198,6 +1251,8 @@ def rejects(kd):
                ["%s 6 4 0" % new, "ac 1 6"], ["%s 6 4 0" % new, "am 1 6"], ["%s 6 4 0" % new, "amdup 1 6"],
                ["%s 6 4 0" % new, "amsum 1 1 6"], ["%s 6 4 0" % new, "sum 2 1 6"], ["%s 6 4 0" % new, "stdswp 1 6"],
                ["%s 2 -1 0" % new], ["newfn%s 2 -2 0" % kd.replace("v", "")]]
+        if kd == "a":
+            out += [["soft 7 1", "dm 2 7"], ["soft 7 1", "sl 2 7 0 1 1"], ["soft 7 1", "newdG 3", "linkdm 3 7"]]
         if kd == "v":
             out += [["rsh 2 1 4 2"], ["rsh 2 1 -2 -3"], ["rsh 2 1 0 6"], ["rsh 2 1 -6 -1"], ["newm 4 2 2 0", "linkrsh 4 1 -1 -6"],
                     ["newm 4 2 3 0", "amrsh 4 1 -3 -2"], ["xnew 7 4 0", "ext 2 7 1 -1"], ["xnew 7 4 0", "extfn 2 7 0 -2"],
@@ -1221,6 +1276,8 @@ def rejects(kd):
            ["new%s 2 -1 0" % sfx], ["newfn%s 2 -2 0" % sfx], ["newd%s 5" % sfx, "link 1 5"]]
     if kd == "t":
         out += [["diag 2 1 2"], ["diag 2 1 -2"], ["new 3 2 0", "linkdiag 3 1 2"]]
+    if kd in "gG":
+        out += [["diag 2 1 1"], ["diag 2 1 -1"], ["new%s 3 2 0" % ("" if kd == "g" else "a"), "linkdiag 3 1 1"]]
     return out
 
 
@@ -1229,7 +1286,7 @@ def directed_rejects():
     used, copied, and everything destroyed: a rejected request must leave every count, object and value as it was,
     and the data must still be released exactly once"""
     out = []
-    for kd in "vamst":
+    for kd in ALLK:
         w = "w 1 0 5"
         for sname, sp in subjects(kd).items():
             for rj in rejects(kd):
@@ -1241,38 +1298,45 @@ def directed_rejects():
 
 # valid requests of every kind (2 = new handle)
 def valid_views(kd):
-    if kd in "va":
-        out = [["sl 2 1 1 4 1"], ["sl 2 1 0 5 2"], ["sl 2 1 3 2 1"], ["sl 2 1 5 2 2"], ["fnsl 2 1 1 3 1"], ["fnvsl 2 1 0 4 2"]]
+    if kd in VEC:
+        out = [["sl 2 1 1 4 1"], ["sl 2 1 0 5 2"], ["sl 2 1 3 2 1"], ["sl 2 1 5 2 2"], ["fnsl 2 1 1 3 1"], ["fnvsl 2 1 0 4 2"], ["il 2 1"]]
         if kd == "v":
             out += [["rsh 2 1 2 3"], ["rsh 2 1 6 1"], ["rsh 2 1 1 6"]]
+        if kd in "va":
+            out += [["dm 2 1"]]
         return out
     if kd == "m":
         return [["row 2 1 1 0 2 1"], ["row 2 1 2 0 2 2"], ["col 2 1 0 2 1 1"], ["col 2 1 1 0 1 2"], ["sub 2 1 0 1 1 1 2 1"],
                 ["sub 2 1 0 2 2 0 2 2"], ["sub 2 1 2 1 1 0 2 1"], ["idx 2 1 0"], ["idx 2 1 2"], ["tr 2 1"], ["diag 2 1 0"], ["diag 2 1 1"],
-                ["diag 2 1 -2"], ["sod 2 1 0 1"], ["sod 2 1 1 2"], ["sod 2 1 2 2"], ["perm 2 1 1 0"], ["perm 2 1 0 1"]]
-    out = [["diag 2 1 0"], ["diag 2 1 1"], ["diag 2 1 -1"], ["sod 2 1 0 1"], ["sod 2 1 1 2"], ["sod 2 1 0 2"], ["sod 2 1 1 1"]]
-    if kd == "s":
-        out += [["diag 2 1 2"], ["diag 2 1 -2"]]
+                ["diag 2 1 -2"], ["sod 2 1 0 1"], ["sod 2 1 1 2"], ["sod 2 1 2 2"], ["perm 2 1 1 0"], ["perm 2 1 0 1"], ["il 2 1"]]
+    out = [["diag 2 1 0"], ["sod 2 1 0 1"], ["sod 2 1 1 2"], ["sod 2 1 0 2"], ["sod 2 1 1 1"]]
+    if kd in "stS":
+        out += [["diag 2 1 1"], ["diag 2 1 -1"]]
+    if kd in SYMM:
+        out += [["diag 2 1 2"], ["diag 2 1 -2"], ["tr 2 1"]]
+    if kd in "stg":
+        out += [["il 2 1"]]
     return out
 
 
 def allocating_ops(kd):
     """operations on subject 1 (and source / target 2, 3 of the same kind) that allocate array data"""
     sfx = SFX_OF[kd]
-    mk2 = {"v": "new 2 6 40", "a": "newa 2 6 40", "m": "newm 2 3 3 40", "s": "news 2 3 40", "t": "newt 2 3 40"}[kd]
+    mk2 = {"v": "new 2 6 40", "a": "newa 2 6 40", "p": "newp 2 6 40", "m": "newm 2 3 3 40"}.get(kd, "new%s 2 3 40" % sfx)
     out = [["fnrs 1 2"], ["amfresh 1 3 9"], ["amfresh 1 2 9"], [mk2, "cp 12 2", "ac 1 2"], [mk2, "cp 12 2", "am 1 2"], [mk2, "am 1 2"],
            [mk2, "amdup 1 2"], [mk2, "amfn 1 2"], ["newd%s 3" % sfx, "ac 3 1"], ["newd%s 3" % sfx, "am 3 1"], ["newd%s 3" % sfx, "amdup 3 1"],
            ["newd%s 3" % sfx, "amfn 3 1"], ["newd%s 3" % sfx, "stdswp 3 1"], ["newd%s 3" % sfx, "stdswp 1 3"], [mk2, "stdswp 1 2"],
            ["new%s 3 %s" % (sfx, "2 2 5" if kd == "m" else "4 5")], ["newfn%s 3 3 5" % sfx], ["amdup 1 1"], ["ac 1 1"]]
-    if kd in "va":
+    if kd in VEC:
         out += [["rs 1 4 0"], ["rsi 1 2 0"], ["acsl 1 1 1 5 1"], ["amsl 1 1 0 4 1"], ["sum 3 1 1"], ["amsum 1 1 1"], [mk2, "amsum 2 1 1"],
                 ["newd%s 3" % sfx, "amsl 3 1 1 3 1"], ["newd%s 3" % sfx, "amfnvsl 3 1 1 3 1"]]
     if kd == "v":
         out += [["xnew 7 8 60", "amext 1 7 1 6"], ["newd 3", "xnew 7 8 60", "amextfn 3 7 1 4"], ["newd 3", "fnew 7 60", "amfix 3 7 0 2"]]
     if kd == "m":
         out += [["rs2 1 2 2 0"], ["rsi2 1 4 3 0"], ["newd 3", "amdiag 3 1 0"], ["newdm 3", "amtr 3 1"], ["amtr 1 1"], ["newdm 3", "amsod 3 1 0 1"]]
-    if kd in "st":
-        out += [["rs 1 2 0"], ["rsi 1 4 0"], ["rs2 1 2 2 0"], ["newd 3", "amdiag 3 1 0"], ["newd%s 3" % sfx, "amsod 3 1 0 1"]]
+    if kd in SPEC:
+        out += [["rs 1 2 0"], ["rsi 1 4 0"], ["rs2 1 2 2 0"], ["newd%s 3" % ("a" if kd in ACT else ""), "amdiag 3 1 0"],
+                ["newd%s 3" % sfx, "amsod 3 1 0 1"]]
     return out
 
 
@@ -1281,7 +1345,7 @@ def directed_faults():
     other referrers are written and read, the object the failure hit is cleared or destroyed FIRST (it must not give
     back a link it no longer holds) or resized again, and everything is released"""
     out = []
-    for kd in "vamst":
+    for kd in ALLK:
         for sname, sp in subjects(kd).items():
             for ops in allocating_ops(kd):
                 pre, op = ops[:-1], ops[-1]
@@ -1294,7 +1358,15 @@ def directed_faults():
 
 def result_kind(kd, req):
     fn = split_cmd(req.split()[0])[1]
-    return kd if fn in ("sl", "sod") else "v" if fn in ("row", "col", "idx", "diag") else "m"
+    if fn in ("sl", "sod") or (fn == "tr" and kd != "m"):
+        return kd
+    if fn == "diag":
+        return "a" if kd in ACT else "v"
+    if fn == "dm":
+        return "G" if kd == "a" else "g"
+    if fn == "il":
+        return "p" if kd == "a" else kd
+    return "v" if fn in ("row", "col", "idx") else "m"
 
 
 def directed_kinds():
@@ -1303,7 +1375,7 @@ def directed_kinds():
     link, std::vector growth, functions and swaps on every subject"""
     out = []
     mk = {"v": "new 3 %d 0", "a": "newa 3 %d 0", "m": "newm 3 %d %d 0", "s": "news 3 %d 0", "t": "newt 3 %d 0"}
-    for kd in "vamst":
+    for kd in ALLK:
         for sname, sp in subjects(kd).items():
             for vq in valid_views(kd):
                 req = vq[0]
@@ -1573,8 +1645,10 @@ def run(ctx, replay):
     bad += run_hists(ctx, exe, dm, "directed", workers)
     hists = [random_history(ctx.rng, maxlen) for _ in range(nhist)]
     bad += run_hists(ctx, exe, hists, "default", workers)
-    ctx.cov["rule"] = ("life-cycle histories over a pool of Array<1,int>, Array<2,int>, active Array<1,double>, symmetric and tridiagonal "
-                       "SpecialMatrix<int>, one std::vector per class, external blocks and FixedArray<int,false,4>: %d random histories of up "
+    ctx.cov["rule"] = ("life-cycle histories over a pool of Array<1,int>, Array<2,int>, active Array<1,double>, Array<1,double> (value() of an "
+                       "active vector), symmetric, tridiagonal and diagonal SpecialMatrix<int>, active diagonal and symmetric "
+                       "SpecialMatrix<double> (cross-class views: diag_matrix(), inactive_link()/value(), diag_vector, T(), "
+                       "submatrix_on_diagonal), one std::vector per class, external blocks and FixedArray<int,false,4>: %d random histories of up "
                        "to %d operations (+%d corpus cases, +%d directed cases: rank-1 target x source x form of assignment/link/release; "
                        "every kind of subject x every request that must be REJECTED (reversed ranges, diagonals beyond the matrix, wrong or "
                        "negative reshape, bad sub-matrix bounds, repeated permute dimension, negative / non-square resize and constructors, "
@@ -1589,7 +1663,9 @@ def run(ctx, replay):
     ctx.cov["exhaustive"] = False
     ctx.assumptions += [
         "element type int for the passive classes (Packet<int>::size = 1: rows of Array<2> are not padded), double for the active "
-        "vector; active Array<2>, the other SpecialMatrix engines and ranks above 2 follow the same code but are not driven",
+        "classes and value() of an active vector; active Array<2>, the other SpecialMatrix engines and ranks above 2 follow the same code "
+        "but are not driven; inactive_link()/value() of an ACTIVE SpecialMatrix does not compile on the unchanged tree (candidate "
+        "finding_2) and is not driven",
         "indices address the source (the library does not test them: C06/C11); reversed ranges, diagonals, extents and sub-matrix "
         "bounds are unrestricted; a stale soft_link()/external view is the user's "
         "responsibility: histories are cut before an operation that would read or write through one (decided by the model, counted "
